@@ -696,6 +696,22 @@ pub trait Dg:
     fn toggle_arc(&mut self, _u: usize, _v: usize) {
         unreachable!("toggle is AdjacencyMatrix only")
     }
+    /// a deterministic generator (unweighted representations)
+    fn from_gen(_gen: &str, _a: usize, _b: usize) -> Self {
+        unreachable!("{} has no generators", Self::NAME)
+    }
+    /// From<iterator of arcs> (AdjacencyMatrix, EdgeList)
+    fn from_arc_iter(_arcs: &[(usize, usize)]) -> Self {
+        unreachable!("{} is not built from arcs", Self::NAME)
+    }
+    /// From<iterator of rows> (AdjacencyList, AdjacencyMap, weighted)
+    fn from_row_iter(_rows: &[Vec<(usize, i64)>]) -> Self {
+        unreachable!("{} is not built from rows", Self::NAME)
+    }
+    /// Self::from(Via::from(self)) for another unweighted representation
+    fn round_trip(self, _via: &str) -> Self {
+        unreachable!("{} has no conversions back", Self::NAME)
+    }
 
     /// Build the digraph through the public API: empty(k) for the largest
     /// prefix 0..k of V, then add_arc; isolated vertices outside the prefix
@@ -745,6 +761,22 @@ macro_rules! impl_dg_unweighted {
             fn add(&mut self, u: usize, v: usize, _w: i64) {
                 self.add_arc(u, v);
             }
+            fn from_gen(gen: &str, a: usize, b: usize) -> Self {
+                match gen {
+                    "empty" => <$t as Empty>::empty(a),
+                    "trivial" => <$t as Empty>::trivial(),
+                    "complete" => <$t as Complete>::complete(a),
+                    "circuit" => <$t as Circuit>::circuit(a),
+                    "cycle" => <$t as Cycle>::cycle(a),
+                    "path" => <$t as Path>::path(a),
+                    "star" => <$t as Star>::star(a),
+                    "wheel" => <$t as Wheel>::wheel(a),
+                    "biclique" => <$t as Biclique>::biclique(a, b),
+                    "claw" => <$t as Biclique>::claw(),
+                    "utility" => <$t as Biclique>::utility(),
+                    other => panic!("unknown generator {other}"),
+                }
+            }
             fn weight(&self, u: usize, v: usize) -> Option<i64> {
                 if self.has_arc(u, v) { Some(1) } else { None }
             }
@@ -758,13 +790,55 @@ macro_rules! impl_dg_unweighted {
     };
 }
 
-impl_dg_unweighted!(AdjacencyList, "AdjacencyList", false, {});
-impl_dg_unweighted!(AdjacencyMap, "AdjacencyMap", true, {});
-impl_dg_unweighted!(EdgeList, "EdgeList", false, {});
+macro_rules! round_trip_via {
+    ($($name:expr => $via:ty),*) => {
+        fn round_trip(self, via: &str) -> Self {
+            match via {
+                $($name => Self::from(<$via>::from(self)),)*
+                other => panic!("no conversion through {other}"),
+            }
+        }
+    };
+}
+
+macro_rules! from_set_rows {
+    () => {
+        fn from_row_iter(rows: &[Vec<(usize, i64)>]) -> Self {
+            Self::from(
+                rows.iter()
+                    .map(|r| r.iter().map(|x| x.0).collect::<BTreeSet<usize>>())
+                    .collect::<Vec<_>>(),
+            )
+        }
+    };
+}
+
+macro_rules! from_arc_list {
+    () => {
+        fn from_arc_iter(arcs: &[(usize, usize)]) -> Self {
+            Self::from(arcs.iter().copied())
+        }
+    };
+}
+
+impl_dg_unweighted!(AdjacencyList, "AdjacencyList", false, {
+    from_set_rows!();
+    round_trip_via!("AdjacencyMap" => AdjacencyMap, "AdjacencyMatrix" => AdjacencyMatrix, "EdgeList" => EdgeList);
+});
+impl_dg_unweighted!(AdjacencyMap, "AdjacencyMap", true, {
+    from_set_rows!();
+    round_trip_via!("AdjacencyList" => AdjacencyList, "AdjacencyMatrix" => AdjacencyMatrix, "EdgeList" => EdgeList);
+});
+impl_dg_unweighted!(EdgeList, "EdgeList", false, {
+    from_arc_list!();
+    round_trip_via!("AdjacencyList" => AdjacencyList, "AdjacencyMap" => AdjacencyMap, "AdjacencyMatrix" => AdjacencyMatrix);
+});
 impl_dg_unweighted!(AdjacencyMatrix, "AdjacencyMatrix", false, {
     fn toggle_arc(&mut self, u: usize, v: usize) {
         self.toggle(u, v);
     }
+    from_arc_list!();
+    round_trip_via!("AdjacencyList" => AdjacencyList, "AdjacencyMap" => AdjacencyMap, "EdgeList" => EdgeList);
 });
 
 macro_rules! impl_dg_weighted {
@@ -778,6 +852,13 @@ macro_rules! impl_dg_weighted {
             }
             fn add(&mut self, u: usize, v: usize, w: i64) {
                 self.add_arc_weighted(u, v, w as $w);
+            }
+            fn from_row_iter(rows: &[Vec<(usize, i64)>]) -> Self {
+                Self::from(
+                    rows.iter()
+                        .map(|r| r.iter().map(|&(v, w)| (v, w as $w)).collect::<BTreeMap<usize, $w>>())
+                        .collect::<Vec<_>>(),
+                )
             }
             fn weight(&self, u: usize, v: usize) -> Option<i64> {
                 self.arc_weight(u, v).map(|&w| w as i64)
